@@ -388,3 +388,55 @@ Theorem c11_sched_tch_frames_agree : forall r tn cur s,
     mf_fires cur s (r_task r) K_TCH_D false = trx_owns_opt L UL (other_subchan (r_lchan r)) fn.
 Proof. exact sched_tch_frames_agree. Qed.
 Print Assumptions c11_sched_tch_frames_agree.
+
+(* ================================================================== from the channel number to the combination trxcon configures
+   trx_chan_nr2pchan = the model of l1sched_chan_nr2pchan_config() (sched_trx.c): the combination handle_dch_est_req() hands to
+   l1sched_configure_ts() when a dedicated channel is established. *)
+
+(* the model is the real function on all 256 channel numbers (tx_resolve: its results, regenerated on every run) *)
+Theorem c11_resolver_is_real : forall c, 0 <= c < 256 -> trx_chan_nr2pchan c = nth (Z.to_nat c) tx_resolve (-1).
+Proof. exact resolver_is_real. Qed.
+Print Assumptions c11_resolver_is_real.
+
+(* for every row of the table and every timeslot: the channel number the firmware reports for the row's task (mframe_task2chan_nr, the
+   number both stacks agree on by c11_rows_chan_nr) resolves - for a dedicated channel (everything but BCCH / CCCH) - to a combination
+   under which the table has this very task with the same channel, SACCH, timeslots and mode; BCCH / CCCH numbers resolve to NONE
+   (they are not established through a channel number) *)
+Theorem c11_chan_nr_resolves_to_row_combination : forall r tn, In r c11_rows -> 0 <= tn < 8 ->
+  let cfg := trx_chan_nr2pchan (fw_task_chan_nr (r_task r) tn) in
+  (row_dedicated r = true ->
+     exists r', In r' c11_rows /\ r_cfg r' = cfg /\ r_task r' = r_task r /\ r_lchan r' = r_lchan r /\ r_sacch r' = r_sacch r /\
+                r_tn r' = r_tn r /\ r_mode r' = r_mode r) /\
+  (row_dedicated r = false -> cfg = tx_GSM_PCHAN_NONE).
+Proof. exact chan_nr_resolves. Qed.
+Print Assumptions c11_chan_nr_resolves_to_row_combination.
+
+(* ... so in the layout trxcon selects for the resolved combination on that timeslot, the frames in which the firmware starts the blocks
+   of the task are exactly the layout's burst-0 frames of the row's channel (c11_block_starts_agree composed with the resolver) ... *)
+Theorem c11_dch_est_block_starts_agree : forall r tn cur,
+  In r c11_rows -> row_dedicated r = true -> r_mode r <> Tch -> 0 <= tn < 8 -> tn_ok (r_tn r) tn = true -> 0 <= cur < 2715648 ->
+  exists r' L, In r' c11_rows /\ r_cfg r' = trx_chan_nr2pchan (fw_task_chan_nr (r_task r) tn) /\ row_layout r' tn = Some L /\
+    let fn := (cur + 2) mod 2715648 in
+    fw_fires (r_task r) K_NB_DL false cur = trx_first L DL (r_lchan r) fn /\
+    fw_fires (r_task r) K_NB_DL true cur = trx_first_opt L DL (r_sacch r) fn /\
+    (r_mode r = Block ->
+       fw_fires (r_task r) K_NB_UL false cur = trx_first L UL (r_lchan r) fn /\
+       fw_fires (r_task r) K_NB_UL true cur = trx_first_opt L UL (r_sacch r) fn) /\
+    (r_mode r = BlockDL ->
+       fw_fires (r_task r) K_NB_UL false cur = false /\ fw_fires (r_task r) K_NB_UL true cur = false).
+Proof. exact dch_est_block_starts. Qed.
+Print Assumptions c11_dch_est_block_starts_agree.
+
+(* ... and the TCH / SACCH-T frames are exactly the layout's frames of TCHF / TCHH_s / SACCHT* *)
+Theorem c11_dch_est_tch_frames_agree : forall r tn cur,
+  In r c11_rows -> row_dedicated r = true -> r_mode r = Tch -> 0 <= tn < 8 -> tn_ok (r_tn r) tn = true -> 0 <= cur < 2715648 ->
+  exists r' L, In r' c11_rows /\ r_cfg r' = trx_chan_nr2pchan (fw_task_chan_nr (r_task r) tn) /\ row_layout r' tn = Some L /\
+    let fn := (cur + 2) mod 2715648 in
+    fw_fires (r_task r) K_TCH false cur = trx_owns L DL (r_lchan r) fn /\
+    fw_fires (r_task r) K_TCH false cur = trx_owns L UL (r_lchan r) fn /\
+    fw_fires (r_task r) K_TCH_A true cur = trx_owns_opt L DL (r_sacch r) fn /\
+    fw_fires (r_task r) K_TCH_A true cur = trx_owns_opt L UL (r_sacch r) fn /\
+    fw_fires (r_task r) K_TCH_D false cur = trx_owns_opt L DL (other_subchan (r_lchan r)) fn /\
+    fw_fires (r_task r) K_TCH_D false cur = trx_owns_opt L UL (other_subchan (r_lchan r)) fn.
+Proof. exact dch_est_tch_frames. Qed.
+Print Assumptions c11_dch_est_tch_frames_agree.
